@@ -63,7 +63,8 @@ class DumpOpaque:
 @contract
 class RunSkeleton:
     fn = "parser.Parser.run"
-    props = ["C12", "C10", "C19", "C13", "C14"]
+    # run() is the entry point of every property: parse once per call, format with the flags of THIS call, return that
+    props = ["C%02d" % i for i in range(1, 21)]
     raises = ("SimpleDDLParserException",)
     abstract_callees = True
     cases = {"no-dump": dict(dump=False), "dump-with-file-path": dict(dump=True)}
